@@ -197,11 +197,11 @@ def gen_cases(tier, seed):
             cases += exhaustive(t, 2, 3, kinds) if t in MAPS else exhaustive(t, 3, 3, kinds)
         else:
             cases += exhaustive(t, 3, 5, kinds) if t in MAPS else exhaustive(t, 4, 5, kinds)
-        nrand = 260 if quick else 6000
+        nrand = 260 if quick else 7500
         for _ in range(nrand):
             cases.append(random_history(rng, t))
         if t in CONC:
-            for _ in range(60 if quick else 1500):
+            for _ in range(60 if quick else 2000):
                 cases.append(conc_focus(rng, t))
     return cases
 
@@ -697,6 +697,8 @@ class Spec:
 
 def conservation(c, impl):
     """CRelNoIndex with different shard counts: the three final lookups together hold every inserted value once"""
+    if any(r in ("panic", "unsup") for r in impl):
+        return None   # the history left the freeze protocol and stopped: the read-out did not happen
     ins = collections.Counter()
     for o in c["ops"]:
         if o[0] in ("ins", "cins"):
@@ -906,7 +908,12 @@ def tie(tier, seed, replay):
                                   histories_leaving_freeze_protocol=n_viol, cni_unequal_shard_counts=n_unequal,
                                   dashmap_shards=SUITES),
                 mismatches=mism,
-                extra=dict(cni_unequal_shards=dict(histories=n_unequal, merge_equation_fails_on=nfail,
+                extra=dict(partial=[
+                    "CRelIndex::len_estimate (samples the first four shards) has no theorem: it is an estimate; only model = implementation is checked",
+                    "whole-history (all operation sequences) theorems are stated for RelIndexType1 (c19_hv_history) and for the CRelIndex stratum protocol (c19_cri_stratum_protocol); "
+                    "for the other types each operation is proved to commute with the abstraction and to preserve the invariant (composition by induction is not spelled out)",
+                    "atomicity of DashMap entry operations / RwLock pushes is an assumption of the concurrency theorems (they quantify over all orders of atomic steps)"],
+                    cni_unequal_shards=dict(histories=n_unequal, merge_equation_fails_on=nfail,
                                                    conservation_checked="new+delta+total together hold every inserted value exactly once",
                                                    examples=[e for e in unequal_eqn_fail if e][:3])),
                 trusted_base=["ds_index (Rust harness) + gen/props/c19.py renderers, canonicaliser and the python multimap/set/map oracle",
